@@ -542,8 +542,11 @@ package headers
 //@ pure func firstBelowTip(b Branch, e *HeightHash) bool = e != nil && e.Height == tipH(b) - 1 && ancv(b, tipH(b) - 1) != nil && e.Hash == ancv(b, tipH(b) - 1).Hash
 
 //@ func (Branch).GetLocatorHashes
-//@   requires len(b.headers) > 0 && last(b) != nil && b.offset >= 1
+//@   requires len(b.headers) > 0 && last(b) != nil && b.offset >= 1 && delta >= 1
 //@   ensures [C19.entries] forall(i, 0, len(result), locEntry(b, splits, result[i]))
+// Only what lies below our own tip is offered: a fork point above the tip would make a peer on our chain reply with
+// headers that do not connect to anything we hold.
+//@   ensures [C19.below-tip] tipH(b) != 0 ==> forall(i, 0, len(result), result[i].Height < tipH(b))
 //@   ensures [C19.genesis-alone] tipH(b) == 0 ==> len(result) == 1 && result[0] != nil && result[0].Height == 0 && result[0].Hash == last(b).Hash
 //@   ensures [C19.starts-below-tip] tipH(b) != 0 && ancv(b, tipH(b) - 1) != nil ==> len(result) >= 1 && firstBelowTip(b, result[0])
 //@   ensures arr(result) == 0 || fresh(result)
@@ -555,10 +558,12 @@ package headers
 //@     invariant len(result) == 0 ==> previousHeight == -1 && height == tipH(b) - 1
 //@     invariant len(result) > 0 ==> firstBelowTip(b, result[0])
 //@     invariant [C19.stops-at-max] len(result) == 0 || len(result) < max
+//@     invariant delta >= 1 && height < tipH(b) && (previousHeight == -1 || previousHeight < tipH(b)) && forall(i, 0, len(result), result[i].Height < tipH(b))
 //@   loop 2
 //@     modifies elems(splitAdded), elems(result)
 //@     invariant (-1 <= rangeindex && rangeindex < len(splits)) || (len(splits) == 0 && rangeindex == -1)
 //@     invariant sameregion(result) && len(result) >= atentry(len(result))
+//@     invariant forall(i, 0, len(result), result[i].Height < tipH(b))
 //@     invariant forall(i, 0, len(result), locEntry(b, splits, result[i]))
 //@     invariant atentry(len(result)) > 0 ==> result[0] == atentry(result[0]) && firstBelowTip(b, result[0])
 //@     invariant atentry(len(result)) == 0 ==> len(result) == 0 || splitEntry(splits, result[0])
@@ -566,6 +571,7 @@ package headers
 //@     modifies elems(splitAdded), elems(result)
 //@     invariant (-1 <= rangeindex && rangeindex < len(splits)) || (len(splits) == 0 && rangeindex == -1)
 //@     invariant sameregion(result) && len(result) >= atentry(len(result))
+//@     invariant forall(i, 0, len(result), result[i].Height < tipH(b))
 //@     invariant forall(i, 0, len(result), locEntry(b, splits, result[i]))
 //@     invariant atentry(len(result)) > 0 ==> result[0] == atentry(result[0]) && firstBelowTip(b, result[0])
 
